@@ -1837,14 +1837,17 @@ static sx::EnumCase family_case(const std::vector<Layout>& Ls) {
   };
   auto dec = [Ls](uint64_t idx, bool th) {
     D d;
+    // the graph varies fastest, so that every 64-input chunk handed to a
+    // worker is a mix of cheap and expensive graphs
+    d.gi = idx % family().size();
+    idx /= family().size();
     int nE = th ? 4 : 2;
     int e  = idx % nE;
     d.E    = th ? e : (e == 0 ? 0 : 3);
     idx /= nE;
     d.T = 1 + idx % 4;
     idx /= 4;
-    d.l  = idx % Ls.size();
-    d.gi = idx / Ls.size();
+    d.l = idx % Ls.size();
     return d;
   };
   sx::EnumCase c;
